@@ -24,6 +24,8 @@ Definition d_op (s : sexp) : op str Z :=
   | _ => OLower
   end.
 
+Definition d_tbl (s : sexp) : list (str * str) := d_list (fun p => (d_str (d_nth p 0), d_str (d_nth p 1))) s.
+
 Definition e_eres {X} (f : X -> sexp) (r : eres X) : sexp := e_res f (eres_to_res r).
 Definition e_kv (p : str * Z) : sexp := L [e_str (fst p); e_Z (snd p)].
 Definition e_ret (r : ret str Z) : sexp :=
@@ -49,14 +51,18 @@ Fixpoint number {X} (from i : nat) (f : bool -> X -> sexp) (l : list X) : list s
   | x :: r => f (Nat.leb from i) x :: number from (S i) f r
   end.
 
-(* 1: (cls dflt init_pairs ops probes from) -> ((unit obs0) (result obs) ...) *)
+(* 1: (cls dflt init_pairs ops probes from lower_table) -> ((unit obs0) (result obs) ...) *)
 Definition run_dict (a : sexp) : sexp :=
   let c := d_cls (d_nth a 0) in
-  let c0 := s_init c (d_Z (d_nth a 1)) (d_list d_kv (d_nth a 2)) in
+  let lw := tbl_lower (d_tbl (d_nth a 6)) in
+  let c0 := match c with
+            | ClsDefault => default_init str Z (FacVal (d_Z (d_nth a 1)))
+            | _ => ci_init str Z str_eqb lw c (d_list d_kv (d_nth a 2))
+            end in
   let probes := d_list d_str (d_nth a 4) in
   let from := d_nat (d_nth a 5) in
   L (number from 0 (fun b xo => L [e_eres e_ret (fst xo); if b then e_obs (snd xo) else L []])
-       ((EOk RNone, observe str Z str_eqb lower probes c0) :: s_run probes c0 (d_list d_op (d_nth a 3)))).
+       ((EOk RNone, observe str Z str_eqb lw probes c0) :: run str Z str_eqb lw probes c0 (d_list d_op (d_nth a 3)))).
 
 (* set operations: (0 k) add, (1 k) discard, (2 k) remove, (3 k) contains, (4 k) get_canonical_key,
    (5) lower, (6) clear, (7 l) |=, (8 l) -=, (9 choice) pop *)
@@ -87,16 +93,17 @@ Definition e_sobs (o : sobs str) : sexp :=
       e_list e_bool (so_contains _ o);
       e_list (e_eres e_str) (so_canonical _ o) ].
 
-(* 2: (init_list ops probes from) -> (0 ((unit obs0) (result obs) ...))  or (3) for an impossible history *)
+(* 2: (init_list ops probes from lower_table) -> (0 ((unit obs0) (result obs) ...))  or (3) for an impossible history *)
 Definition run_set (a : sexp) : sexp :=
-  let s0 := cs_init str str_eqb lower (d_list d_str (d_nth a 0)) in
+  let lw := tbl_lower (d_tbl (d_nth a 4)) in
+  let s0 := cs_init str str_eqb lw (d_list d_str (d_nth a 0)) in
   let probes := d_list d_str (d_nth a 2) in
-  match s_srun probes s0 (d_list d_sop (d_nth a 1)) with
+  match srun str str_eqb lw str_sort probes s0 (d_list d_sop (d_nth a 1)) with
   | None => L [A 3%Z]
   | Some l =>
     L [A 0%Z;
        L (number (d_nat (d_nth a 3)) 0 (fun b xo => L [e_eres e_sret (fst xo); if b then e_sobs (snd xo) else L []])
-            ((EOk SRNone, sobserve str str_eqb lower str_sort probes s0) :: l))]
+            ((EOk SRNone, sobserve str str_eqb lw str_sort probes s0) :: l))]
   end.
 
 (* multi-container operations: (0 i op) op on container i, (1 i) new = c_i.lower(), (2 i cl) new = cl(c_i),
@@ -112,11 +119,11 @@ Definition d_mop (s : sexp) : mop str Z :=
   | 5%Z => MNew (d_cls (d_nth s 1)) (d_list d_kv (d_nth s 2))
   | _ => MNewDefault (d_Z (d_nth s 1))
   end.
-(* 3: (ops probes from) -> ((result (obs of every live container)) ...) *)
+(* 3: (ops probes from lower_table) -> ((result (obs of every live container)) ...) *)
 Definition run_multi (a : sexp) : sexp :=
   let probes := d_list d_str (d_nth a 1) in
   L (number (d_nat (d_nth a 2)) 0 (fun b xo => L [e_eres e_ret (fst xo); if b then e_list e_obs (snd xo) else L []])
-       (mrun str Z str_eqb lower probes [] (d_list d_mop (d_nth a 0)))).
+       (mrun str Z str_eqb (tbl_lower (d_tbl (d_nth a 3))) probes [] (d_list d_mop (d_nth a 0)))).
 
 (* multi-set operations: (0 i sop), (1 i) lower, (2 i) copy, (3 i j) |=, (4 i j) -=, (5 l) new *)
 Definition d_smop (s : sexp) : smop str :=
@@ -131,7 +138,7 @@ Definition d_smop (s : sexp) : smop str :=
   end.
 Definition run_multiset (a : sexp) : sexp :=
   let probes := d_list d_str (d_nth a 1) in
-  match smrun str str_eqb lower str_sort probes [] (d_list d_smop (d_nth a 0)) with
+  match smrun str str_eqb (tbl_lower (d_tbl (d_nth a 3))) str_sort probes [] (d_list d_smop (d_nth a 0)) with
   | None => L [A 3%Z]
   | Some l =>
     L [A 0%Z; L (number (d_nat (d_nth a 2)) 0 (fun b xo => L [e_eres e_sret (fst xo); if b then e_list e_sobs (snd xo) else L []]) l)]
